@@ -152,6 +152,7 @@ Definition srv_packet : bytes :=
 Example C04_accepts_valid :
   omap fields_of (open_client sha1 x_ige_d test_key srv_packet) = Ok (7, 9, 125, 3, test_body).
 Proof. vm_compute. reflexivity. Qed.
+Print Assumptions C04_accepts_valid.
 
 (* negative msg_ids (bit 63 set) x the four low-bit patterns: a conformant server's packet is
    accepted iff the low bits are 01 or 11; Go's signed remainder is not the parity *)
@@ -168,6 +169,7 @@ Example C04_negative_ids :
   to_i64 (2 ^ 64 - 2) = (-2)%Z /\ Z.rem (to_i64 (2 ^ 64 - 2)) 4 = (-2)%Z /\ Z.land (to_i64 (2 ^ 64 - 2)) 3 = 2%Z /\
   to_i64 (2 ^ 64 - 1) = (-1)%Z /\ Z.rem (to_i64 (2 ^ 64 - 1)) 4 = (-1)%Z /\ Z.land (to_i64 (2 ^ 64 - 1)) 3 = 3%Z.
 Proof. vm_compute. repeat split; reflexivity. Qed.
+Print Assumptions C04_negative_ids.
 
 (* the premise of C04_accepted_has_server_parity holds, and its conclusion is checked, for real
    packets with negative ids under the real primitives *)
@@ -178,6 +180,7 @@ Example C04_negative_ids_have_go_parity :
                   | _ => false
                   end) [1; 3] = [true; true].
 Proof. vm_compute. reflexivity. Qed.
+Print Assumptions C04_negative_ids_have_go_parity.
 
 (* a client without an auth key (key exchange still running) or with a short one: a packet that
    carries exactly that key's id - SHA1("")[12..20] is public - is refused with an error; the
@@ -192,6 +195,7 @@ Example C04_short_keys_refused :
   map (fun key => open_client_pinned sha1 x_ige_d key (short_key_packet key))
       [[]; firstn 135 test_key] = [Panic; Panic].
 Proof. vm_compute. repeat split; reflexivity. Qed.
+Print Assumptions C04_short_keys_refused.
 
 Definition flip_bit0 (i : nat) (l : bytes) : bytes :=
   firstn i l ++ match skipn i l with [] => [] | b :: r => N.lxor b 1 :: r end.
@@ -208,6 +212,7 @@ Example C04_refuses_damaged :
        firstn 72 srv_packet; firstn 8 srv_packet; firstn 8 srv_packet ++ [1; 2; 3]]
   = [false; false; false; false; false; false].
 Proof. vm_compute. split; reflexivity. Qed.
+Print Assumptions C04_refuses_damaged.
 
 (* HISTORICAL RECORD (tied to no code now): the code of the pinned tree 0b0db56 panics: key id + 3 bytes (negative make), and a key holder's packet
    declaring length -1 (msg_key taken over the 31 bytes the client will hash: negative make) or
@@ -227,3 +232,4 @@ Example C04_pinned_code_panics :
   open_client sha1 x_ige_d test_key (holder_packet 4294967295 31) = Err /\
   open_client sha1 x_ige_d test_key (holder_packet 40 64) = Err.
 Proof. vm_compute. repeat split; reflexivity. Qed.
+Print Assumptions C04_pinned_code_panics.
